@@ -289,3 +289,65 @@ def ret_kinds(u, f, flow):
                 break
         out[a] = kind
     return out
+
+
+# --------------------------------------------------------------------------- L-UNDEF-REG
+def check_undef(rep, families, suffix, floor):
+    """no kernel of the given families reads a register that is not defined on every path from its entry"""
+    import regdef
+    R = rep.rule('L-UNDEF-REG-' + suffix, 'no kernel reads a general-purpose, vector or mask register that is not written on every path from the entry (SysV: only argument and callee-saved registers are defined at entry); '
+                 'otherwise the result depends on what the caller or an earlier call left in the register', floor=floor, unit='kernels')
+    res, _ = analyse('default')
+    for sym, info in sorted(res.items()):
+        fam = info['fam']['family']
+        if families is not None and fam not in families:
+            continue
+        R.instance()
+        u, f = info['unit'], info['func']
+        n = regdef.NARGS.get(fam)
+        if n is None:
+            raise AnalysisBroken('no argument count for kernel family %s' % fam)
+        if sym == 'build_heap':
+            n = 2
+        fs = regdef.analyse(u, f, n)
+        nreads = len(f.addrs)
+        if not fs:
+            R.ok(nreads, sample='%s: %d instructions, every register read is defined on all paths' % (sym, nreads) if sym.endswith(('_avx2', '_by8_02')) else None)
+        seen = set()
+        for i, r in fs:
+            key = 'L-UNDEF-REG|%s|%s' % (sym, regdef.regname(r))
+            if key in seen:
+                continue
+            seen.add(key)
+            R.fail('%s: %s' % (u.name, u.where(i, f)), 'reads %s, which is not written on every path from the entry of %s' % (regdef.regname(r), sym), key=key)
+    return R
+
+
+# --------------------------------------------------------------------------- M-KWIDTH
+def check_kwidth(rep, families, suffix, floor):
+    """a length-derived AVX-512 write-mask is consumed at one element width only"""
+    import regdef
+    R = rep.rule('M-KWIDTH-' + suffix, 'every definition of an AVX-512 mask register computed at run time is consumed as a write-mask at a single element width '
+                 'and by instructions whose lane count equals the number of mask bits it was built with (a byte-count mask applied to a dword/qword-granular instruction covers the wrong lanes); masks loaded from a constant pool are bit patterns and exempt',
+                 floor=floor, unit='kernels')
+    res, _ = analyse('default')
+    for sym, info in sorted(res.items()):
+        fam = info['fam']['family']
+        if families is not None and fam not in families:
+            continue
+        R.instance()
+        u, f = info['unit'], info['func']
+        bad = 0
+        for d, ws in regdef.mask_width_conflicts(u, f):
+            if d.mn.startswith('kmov') and len(d.ops) == 2 and '[rip' in d.ops[1]:
+                continue
+            bad += 1
+            R.fail('%s: %s' % (u.name, u.where(d, f)), 'mask defined here is used as a write-mask at element widths %s: %s' %
+                   (sorted(ws), '; '.join('%d bytes: %s' % (w, i.text) for w, i in sorted(ws.items()))), key='M-KWIDTH|%s|%#x' % (sym, d.addr - f.entry))
+        for d, i, bits, lanes in regdef.mask_lane_mismatches(u, f):
+            bad += 1
+            R.fail('%s: %s' % (u.name, u.where(i, f)), 'write-mask has %d significant bits (defined by "%s") but this instruction has %d lanes: the mask selects the wrong elements' % (bits, d.text, lanes),
+                   key='M-KLANES|%s|%#x' % (sym, i.addr - f.entry))
+        if not bad:
+            R.ok(1, sample='%s: masks consumed at one width each, bit count = lane count' % sym if 'avx512' in sym and sym.startswith('gf_2') else None)
+    return R
